@@ -7,6 +7,7 @@ import (
 	"verif/ev"
 	"verif/mc"
 	"verif/model"
+	"verif/rx"
 	"verif/val"
 )
 
@@ -117,6 +118,11 @@ func c18Alphabet(slots []string, nkeys int, thorough bool, batchGet bool) func(m
 				} else {
 					add("UpdateTable(delete gsy)", drv.Op{K: drv.KDeleteGSI, Table: s, Index: "gsy"})
 				}
+			}
+			// a write that is rejected for an index key of the wrong type, on a stored and on an absent key:
+			// the table and DescribeTable's counts stay as they were
+			if len(t.Indexes) > 0 {
+				add("Upd(index keys of the wrong type)", drv.Op{K: drv.KUpd, Table: s, Key: c18Key(t.Cfg, 1), Upd: rx.U(rx.Set("a", rx.RV(":n")), rx.Set("g", rx.RV(":n"))), Values: map[string]val.V{":n": val.N("5")}})
 			}
 			for i := 1; i <= nkeys; i++ {
 				k := c18Key(t.Cfg, i)
